@@ -1,8 +1,236 @@
 """C04 - hash_based and kdtree return the same exact neighbour set as the default search."""
+import contextlib
+import io
+import json
+import itertools
 import gens
-from gens import all_strings, repertoire, has_indel_pair, has_dup_pair, canon_triplets
+from gens import all_strings, repertoire, has_indel_pair, has_dup_pair, canon_triplets, canon_model, diff_triplets
 from searchlib import Case, run_cases
-from core import call_impl
+from core import call_impl, jsonable
+
+ENGINES = ('kdtree', 'hash_based', 'nearest_neighbor')
+
+
+# ---------------------------------------------------------------------------------------------------------------------------
+# containers a collection of sequences can arrive in (positions are the iteration order)
+# ---------------------------------------------------------------------------------------------------------------------------
+def build(container, seqs):
+    import numpy as np
+    import pandas as pd
+    n = len(seqs)
+    if container == 'list':
+        return list(seqs)
+    if container == 'tuple':
+        return tuple(seqs)
+    if container == 'list_npstr':
+        return [np.str_(s) for s in seqs]
+    if container == 'ndarray_U':
+        return np.array(list(seqs), dtype=str)
+    if container == 'ndarray_obj':
+        a = np.empty(n, dtype=object)
+        a[:] = list(seqs)
+        return a
+    if container == 'series_default':
+        return pd.Series(list(seqs), dtype=object)
+    if container == 'series_shifted':
+        return pd.Series(list(seqs), index=range(5, 5 + n), dtype=object)
+    if container == 'series_permuted':
+        # labels are a fixed non-identity permutation of the positions (reversal, rotated by one when n is odd)
+        perm = list(range(n))[::-1]
+        if n > 2:
+            perm = perm[1:] + perm[:1]
+        return pd.Series(list(seqs), index=perm, dtype=object)
+    if container == 'series_string':
+        return pd.Series(list(seqs), index=['r%d' % (n - i) for i in range(n)], dtype=object)
+    if container == 'series_strdtype':
+        return pd.Series(list(seqs), dtype='string')
+    raise ValueError(container)
+
+
+CONTAINERS = ('tuple', 'list_npstr', 'ndarray_U', 'ndarray_obj', 'series_default', 'series_shifted', 'series_permuted',
+              'series_string', 'series_strdtype')
+
+
+def snapshot(obj):
+    return [str(x) for x in obj]
+
+
+def invoke(nn, engine, obj, k, kw, call='kw'):
+    """One public call.  call: 'kw' max_edits by keyword, 'pos' max_edits as second positional argument, 'default' max_edits omitted."""
+    fn = getattr(nn, engine)
+    with contextlib.redirect_stderr(io.StringIO()) if kw.get('progress') else contextlib.nullcontext():
+        if call == 'pos':
+            return fn(obj, k, **kw)
+        if call == 'default':
+            return fn(obj, **kw)
+        return fn(obj, max_edits=k, **kw)
+
+
+def site_of(engine, opts):
+    return 'nn.' + engine + ('{%s}' % ','.join('%s=%s' % kv for kv in sorted(opts.items())) if opts else '')
+
+
+def parse_site(site):
+    """'nn.kdtree{compression=3,container=tuple}' -> ('kdtree', container, call, kw)"""
+    eng = site.split('.')[1].split('{')[0]
+    opts = {}
+    if '{' in site:
+        for x in site.split('{')[1].rstrip('}').split(','):
+            a, b = x.split('=')
+            opts[a] = b
+    container, call = opts.pop('container', 'list'), opts.pop('call', 'kw')
+    kw = {}
+    for a, b in opts.items():
+        if b in ('True', 'False'):
+            kw[a] = b == 'True'
+        elif b.lstrip('-').isdigit():
+            kw[a] = int(b)
+        elif b == 'None':
+            kw[a] = None
+        elif b == 'inf':
+            kw[a] = float('inf')
+        else:
+            kw[a] = float(b)
+    return eng, container, call, kw
+
+
+# ---------------------------------------------------------------------------------------------------------------------------
+# the specification computed directly (for inputs the extracted model is too slow on: sequences of hundreds of residues)
+# ---------------------------------------------------------------------------------------------------------------------------
+def lev_dp(a, b):
+    """Levenshtein distance by the textbook recurrence (two rows)."""
+    prev = list(range(len(b) + 1))
+    for i, ca in enumerate(a, 1):
+        cur = [i]
+        for j, cb in enumerate(b, 1):
+            cur.append(min(prev[j] + 1, cur[j - 1] + 1, prev[j - 1] + (ca != cb)))
+        prev = cur
+    return prev[-1]
+
+
+def spec_triplets(seqs, k):
+    """All ordered pairs of distinct positions within Levenshtein distance k (a length difference > k already exceeds k)."""
+    out, memo = [], {}
+    for i in range(len(seqs)):
+        for j in range(i + 1, len(seqs)):
+            a, b = seqs[i], seqs[j]
+            if abs(len(a) - len(b)) > k:
+                continue
+            key = (a, b) if a <= b else (b, a)
+            if key not in memo:
+                memo[key] = 0 if a == b else lev_dp(a, b)
+            d = memo[key]
+            if d <= k:
+                out += [(i, j, d), (j, i, d)]
+    return canon_model(out)
+
+
+class _Dedup:
+    """The oracle seen through run_cases, with identical requests of one batch asked once (many implementation calls - containers,
+    options, engines - share one model answer)."""
+
+    def __init__(self, real):
+        self.real = real
+
+    def __getattr__(self, name):
+        return getattr(self.real, name)
+
+    def run_parallel(self, reqs, *a, **kw):
+        keys = [json.dumps(jsonable(r), sort_keys=True) for r in reqs]
+        first = {}
+        for n, key in enumerate(keys):
+            first.setdefault(key, n)
+        uniq = sorted(first.values())
+        outs = self.real.run_parallel([reqs[n] for n in uniq], *a, **kw)
+        by = {keys[n]: o for n, o in zip(uniq, outs)}
+        return [by[key] for key in keys]
+
+
+def run_cases_dedup(ctx, cases, **kw):
+    real = ctx.oracle
+    ctx.oracle = _Dedup(real)
+    try:
+        return run_cases(ctx, cases, **kw)
+    finally:
+        ctx.oracle = real
+
+
+# ---------------------------------------------------------------------------------------------------------------------------
+# call histories on ONE object (same object to several engines, edits in place between calls, calls in other modes in between)
+# ---------------------------------------------------------------------------------------------------------------------------
+def apply_edit(obj, edit):
+    """edit: ['set', position, string] | ['append', string] (lists only) | ['swap', p, q]; positional, in place."""
+    import pandas as pd
+    if edit[0] == 'set':
+        if isinstance(obj, pd.Series):
+            obj.iloc[edit[1]] = edit[2]
+        else:
+            obj[edit[1]] = edit[2]
+    elif edit[0] == 'append':
+        obj.append(edit[1])
+    elif edit[0] == 'swap':
+        p, q = edit[1], edit[2]
+        if isinstance(obj, pd.Series):
+            a, b = obj.iloc[p], obj.iloc[q]
+            obj.iloc[p], obj.iloc[q] = b, a
+        else:
+            obj[p], obj[q] = obj[q], obj[p]
+
+
+def run_history(ctx, nn, spec):
+    """spec: dict(container, seqs, steps=[dict(engine, k, kw, call, edit=None, other=None, check=True)]).
+    A step with `other` runs on a fresh list of those sequences (a call in between, e.g. in Hamming mode; its result is not judged
+    here when check is False); every other step runs on THE object, after its in-place edit, and is compared with the model of the
+    object's content at the time of the call.  Returns the number of violations reported."""
+    # pass 1: contents at each call (edits replayed on a twin object), model answers in one batch
+    twin = build(spec['container'], spec['seqs'])
+    snaps = []
+    for st in spec['steps']:
+        if st.get('other') is not None:
+            snaps.append(list(st['other']))
+            continue
+        if st.get('edit'):
+            apply_edit(twin, st['edit'])
+        snaps.append(snapshot(twin))
+    judged = [n for n, st in enumerate(spec['steps']) if st.get('check', True)]
+    outs = ctx.oracle.run([('api_brute_self_lev', [spec['steps'][n]['k'], snaps[n]]) for n in judged])
+    exps = {n: canon_model(o) for n, o in zip(judged, outs)}
+    # pass 2: the implementation on one object
+    obj = build(spec['container'], spec['seqs'])
+    bad = 0
+    for n, st in enumerate(spec['steps']):
+        if st.get('other') is not None:
+            target = list(st['other'])
+        else:
+            if st.get('edit'):
+                apply_edit(obj, st['edit'])
+            target = obj
+        got = call_impl(lambda: invoke(nn, st['engine'], target, st['k'], st.get('kw') or {}, st.get('call', 'kw')))
+        if n not in exps:
+            continue
+        exp = exps[n]
+        ok = got[0] == 'ok'
+        if ok:
+            try:
+                impl = canon_triplets(got[1])
+            except Exception as e:
+                ok, impl = False, repr(e)
+        nt = len(exp) > 0
+        ctx.case(nontrivial_key=('history', spec['container'], n, tuple(snaps[n]), st['engine'], st['k']) if nt else None)
+        if ok and impl == exp:
+            continue
+        bad += 1
+        detail = got if not ok else diff_triplets(impl, exp)
+        ctx.violation('property', 'call %d of a history on one %s (%s, max_edits=%d, %s) differs from the exact neighbour set of the '
+                      'content %s at that call: %s; history %s' %
+                      (n, spec['container'], st['engine'], st['k'], st.get('kw') or {}, snaps[n][:12], jsonable(detail),
+                       [(s['engine'], s['k'], s.get('kw') or {}, s.get('edit'), 'other' if s.get('other') is not None else 'same')
+                        for s in spec['steps'][:n + 1]]),
+                      dict(history=spec, failing_step=n, seqs=snaps[n], detail=jsonable(detail),
+                           request=['api_brute_self_lev', [st['k'], snaps[n]]]),
+                      site='nn.history.' + st['engine'])
+        break
+    return bad
 
 
 def run(ctx):
@@ -11,28 +239,43 @@ def run(ctx):
     ctx.rule = ('(a) every string of length <= L over the 3-letter sub-alphabets {A,C,D}, {A,L,Y}, {C,D,E} (straddling '
                 'composition bins), duplicated, one call, k = 1..3 (hash_based k <= 2); (b) boundary families X^m vs Y^m '
                 '(m substitutions of one letter: exactly on the kdtree radius) for m up to 64; (c) random CDR3-like repertoires; '
-                'kdtree, hash_based and nearest_neighbor compared with the models and with each other. '
-                'non-trivial := expected result holds an indel pair and a distance-0 pair')
+                'kdtree, hash_based and nearest_neighbor compared with the models and with each other; (e) the same collections '
+                'as tuple / ndarray (str, object) / list of np.str_ / pandas Series with default, shifted, permuted, string index '
+                'and string dtype; (f) options that never change the answer (kdtree compression 1..100 x n_cpu 1..4 on the '
+                'exhaustive sets and the on-radius families, n_cpu / progress on hash_based, n_cpu on nearest_neighbor, '
+                'max_custom_distance without a custom distance), max_edits positional / omitted; (g) corner sizes (one sequence, '
+                'only empty strings, > 10 identical sequences, anagram classes, max_edits up to 16, hash_based k = 3, '
+                'collections of > 1000 sequences: engines against each other); (h) sequences of 63..300 residues and '
+                'homopolymers across 127/128 and 255/256 against the textbook recurrence; (i) call histories on one object '
+                '(all engines in turn, descending radii, edits in place between calls, Hamming / max_returns / two-worker calls '
+                'in between). non-trivial := expected result holds an indel pair and a distance-0 pair (families (a)-(c)), '
+                'a non-empty expected result (the others)')
     cases = []
 
     def nontriv_for(seqs):
         return lambda exp: has_indel_pair(seqs, exp) and has_dup_pair(exp)
 
-    def mk(engine, seqs, k, model=None, **kw):
-        fn = getattr(nn, engine)
+    def mk(engine, seqs, k, model=None, container='list', call='kw', nontrivial='strict', **kw):
+        opts = dict(kw)
+        if container != 'list':
+            opts['container'] = container
+        if call != 'kw':
+            opts['call'] = call
 
         def remake(ss):
-            return (lambda: fn(list(ss), max_edits=k, **kw)), (model or 'api_brute_self_lev', [k, list(ss)])
+            return ((lambda: invoke(nn, engine, build(container, ss), k, kw, call)),
+                    (model or 'api_brute_self_lev', [k, list(ss)]))
         th, rq = remake(seqs)
-        tag = '{%s}' % ','.join('%s=%s' % kv for kv in sorted(kw.items())) if kw else ''
-        return Case('%s k=%d n=%d %s' % (engine, k, len(seqs), kw or ''), th, rq, seqs=list(seqs), site='nn.' + engine + tag,
-                    remake=remake, nontrivial=nontriv_for(list(seqs)))
+        return Case('%s k=%d n=%d %s' % (engine, k, len(seqs), opts or ''), th, rq, seqs=list(seqs), site=site_of(engine, opts),
+                    remake=remake, nontrivial=nontriv_for(list(seqs)) if nontrivial == 'strict' else None)
 
     L = 3 if ctx.quick else 4
+    exhaustive_sets = {}
     for alpha in ('ACD', 'ALY', 'CDE'):
         base = all_strings(alpha, L)
         seqs = base + rng.sample(base, len(base) // 2)
         rng.shuffle(seqs)
+        exhaustive_sets[alpha] = seqs
         for k in (1, 2, 3):
             cases.append(mk('kdtree', seqs, k))
             if k <= 2:
@@ -86,7 +329,7 @@ def run(ctx):
             continue
         cases.append(mk(eng, seqs, k))
     # (d) long sequences (full-length chains, 100-260 residues): a few neighbours by substitution / insertion, lengths on both sides of
-    # 127/128 and 255/256; kdtree and the default search
+    # 127/128 and 255/256; kdtree and the default search (one model answer per collection: the three calls share max_edits)
     for t in range(3 if ctx.quick else 30):
         Ln = rng.choice([127, 255, rng.randint(100, 140)])
         s1 = ''.join(rng.choice(gens.AA) for _ in range(Ln))
@@ -95,9 +338,182 @@ def run(ctx):
                 ''.join(rng.choice(gens.AA) for _ in range(Ln))]
         rng.shuffle(seqs)
         ctx.count('long_sequences')
+        k = rng.choice([1, 2])
         for eng, kw in (('kdtree', {}), ('kdtree', dict(compression=20)), ('nearest_neighbor', {})):
-            cases.append(mk(eng, seqs, rng.choice([1, 2]), **kw))
-    run_cases(ctx, cases, vm_every=13)
+            cases.append(mk(eng, seqs, k, **kw))
+    run_cases_dedup(ctx, cases, vm_every=13)
+
+    # ------------------------------------------------------------------------------------------------------------------
+    # widened families (e)-(g): one model answer per (collection, max_edits), many implementation calls
+    # ------------------------------------------------------------------------------------------------------------------
+    wide = []
+
+    def short_rep(n, maxlen):
+        return ([s for s in repertoire(rng, 3 * n) if len(s) <= maxlen] or ['CAF'])[:n]
+
+    # (e) containers x engines
+    conts = list(CONTAINERS)
+    for rnd in range(1 if ctx.quick else 12):
+        seqs1 = repertoire(rng, rng.randint(12, 30))
+        seqs2 = short_rep(8, 6) + ['CAF', 'CAF', 'CF']
+        rng.shuffle(conts)
+        for ci, cont in enumerate(conts):
+            for eng in ENGINES:
+                ctx.count('container:' + cont)
+                if eng == 'hash_based':
+                    # radius 2 on the short collection, radius 1 on the CDR3-like one (the ball enumeration is the cost)
+                    wide.append(mk(eng, seqs2, 2, container=cont, nontrivial='any') if ci % 2 else
+                                mk(eng, [s for s in seqs1 if len(s) <= 14] or ['CAF'], 1, container=cont, nontrivial='any'))
+                else:
+                    wide.append(mk(eng, seqs1, 1 + (ci + rnd) % 3, container=cont, nontrivial='any'))
+    # (f1) kdtree: compression x workers on the exhaustive sets (letters straddling the bins) and on-radius families
+    comps = [1, 2, 3, 4, 5, 6, 7, 9, 10, 11, 19, 20, 21, 25, 100]
+    combos = [(c, w) for c in comps for w in (1, 2, 3, 4)]
+    rng.shuffle(combos)
+    for n, (c, w) in enumerate(combos[:8] if ctx.quick else combos):
+        alpha = ('ACD', 'ALY', 'CDE')[n % 3]
+        seqs = exhaustive_sets[alpha] if ctx.quick else rng.sample(exhaustive_sets[alpha], 90)
+        ctx.count('kdtree_compression_x_workers')
+        wide.append(mk('kdtree', seqs, 1 + n % 3, compression=c, n_cpu=w))
+    for n, m in enumerate([2, 3, 5, 12] if ctx.quick else [1, 2, 3, 4, 5, 6, 8, 11, 12, 13, 21, 33]):
+        # X^m vs Y^m: squared histogram distance 2 m^2 when X and Y fall into different bins, 0 when compression merges them
+        for x, y in (('A', 'C'), ('W', 'Y'), ('A', 'Y')):
+            seqs = [x * m, y * m, x * (m - 1) + y, x * m + y, 'C' + x * m + 'F', 'C' + y * m + 'F'] + [x * m] * (6 if m % 2 else 0)
+            for c in ((2, 3) if ctx.quick else (2, 3, 7, 20)):
+                ctx.count('on_radius_under_compression')
+                wide.append(mk('kdtree', seqs, m, compression=c, n_cpu=1 + (n + c) % 2, nontrivial='any'))
+    # (f2) options documented as ignored / not implemented, and the ways of passing max_edits
+    for rnd in range(1 if ctx.quick else 10):
+        seqs = [s for s in repertoire(rng, rng.randint(8, 30)) if len(s) <= 14] or ['CAF']
+        k = rng.choice([1, 2])
+        sh = short_rep(10, 7) + ['CAF', 'CAF', 'CAYF', 'CWWF']
+        for eng, ss, kk, kw in (('hash_based', seqs, 1, dict(n_cpu=2)), ('hash_based', sh, 2, dict(n_cpu=3)),
+                                ('hash_based', seqs, 1, dict(progress=True)), ('hash_based', seqs, 1, dict(progress=False)),
+                                ('nearest_neighbor', seqs, k, dict(n_cpu=2)),
+                                ('kdtree', seqs, 2, dict(max_custom_distance=1)), ('kdtree', seqs, k, dict(max_custom_distance=0)),
+                                ('nearest_neighbor', seqs, 2, dict(max_custom_distance=1)),
+                                ('nearest_neighbor', seqs, k, dict(max_custom_distance=0)),
+                                ('hash_based', seqs, 1, dict(max_custom_distance=1)),
+                                ('hash_based', sh, 2, dict(max_custom_distance=2.5)),
+                                ('kdtree', seqs, k, dict(max_returns=None, n_cpu=1, custom_distance=None, compression=1))):
+            ctx.count('ignored_option:%s:%s' % (eng, '+'.join(sorted(kw))))
+            wide.append(mk(eng, ss, kk, nontrivial='any', **kw))
+        # max_custom_distance below max_edits without a custom distance: "ignored" by all three engines (hash_based applied it to the
+        # edit distance up to /repo ac40883, D21)
+        ctx.count('ignored_option:hash_based:max_custom_distance_below_max_edits')
+        wide.append(mk('hash_based', sh + ['CAAF', 'CDDF', 'CF'], 2, nontrivial='any', max_custom_distance=1))
+        for eng in ENGINES:
+            ctx.count('max_edits_positional')
+            wide.append(mk(eng, sh if eng == 'hash_based' else seqs, 2, call='pos', nontrivial='any',
+                           **(dict(compression=3) if eng == 'kdtree' else {})))
+    # (g) corner sizes and radii
+    corner = [(['CASSF'], 1), ([''], 1), (['', ''], 1), (['', '', 'A', 'AC'], 2), (['CASSF', 'CASSF'], 1), (['CASSF'] * 12, 1),
+              (['CASSLGF'] * 25 + ['CASSLGY'], 2), (['AC', 'CA', '', 'A', 'CC', 'AC'], 3),
+              ([''.join(p) for p in itertools.permutations('ACDE')], 2),
+              ([''.join(p) for p in itertools.permutations('ACDE')] + ['ACD', 'ACDEE', 'WCDE'], 3)]
+    if not ctx.quick:
+        corner += [(rng.sample(all_strings('AC', 3), 9), 3), (['CASSF'] * 11 + ['CASF'] * 11 + ['CAF'] * 11, 2),
+                   ([''.join(p) for p in itertools.permutations('ACDEF')], 4)]
+    for seqs, k in corner:
+        for eng in ENGINES:
+            if eng == 'hash_based' and (k > 3 or (k == 3 and max(map(len, seqs)) > (2 if ctx.quick else 3))
+                                        or (k == 2 and sum((len(s) + 1) ** 2 for s in seqs) > (700 if ctx.quick else 3000))):
+                continue
+            ctx.count('corner_sizes')
+            wide.append(mk(eng, seqs, k, nontrivial='any', **(dict(n_cpu=2) if eng == 'kdtree' and len(seqs) % 2 else {})))
+    for t in range(4 if ctx.quick else 60):
+        seqs = repertoire(rng, rng.randint(5, 40))
+        k = rng.choice([4, 5, 6, 8, 10, 16])
+        ctx.count('large_max_edits')
+        wide.append(mk('kdtree', seqs, k, nontrivial='any', **(dict(compression=rng.choice([1, 3, 20])) if t % 2 else {})))
+        if not ctx.quick and k <= 5:
+            wide.append(mk('nearest_neighbor', seqs[:15], k, nontrivial='any'))
+    # more than a thousand sequences against the model (kdtree serial / two workers, hash_based) - thorough tier
+    if not ctx.quick:
+        big = repertoire(rng, 1100)
+        for eng, kw in (('kdtree', {}), ('kdtree', dict(n_cpu=2)), ('kdtree', dict(n_cpu=3, compression=4)), ('hash_based', {})):
+            ctx.count('n>1000_vs_model')
+            wide.append(mk(eng, big, 1, nontrivial='any', **kw))
+    run_cases_dedup(ctx, wide)
+
+    # (g') several hundred / thousand sequences: the engines against each other (the property states they agree)
+    for n, k in ([(400, 2), (1100, 1)] if ctx.quick else [(400, 2), (1100, 1), (1100, 2), (4200, 1)]):
+        seqs = repertoire(rng, n)
+        ctx.count('large_collection_engines_agree')
+        calls = [('nearest_neighbor', 'list', {}), ('kdtree', 'ndarray_U', {}), ('kdtree', 'list', dict(n_cpu=2, compression=2)),
+                 ('kdtree', 'series_permuted', dict(n_cpu=3))]
+        if k == 1:
+            calls.append(('hash_based', 'list', {}))
+        differential(ctx, nn, seqs, k, calls)
+    # max_edits omitted: whatever the default radius is, it is the same for the three engines
+    for t in range(3 if ctx.quick else 40):
+        seqs = [s for s in repertoire(rng, rng.randint(2, 40)) if len(s) <= 13] or ['CAF']
+        ctx.count('max_edits_omitted_engines_agree')
+        differential(ctx, nn, seqs, None, [(e, 'list', {}) for e in ENGINES])
+
+    # (h) long sequences and homopolymers against the textbook recurrence
+    long_cases = []
+    for m in ([128, 256] if ctx.quick else [64, 127, 128, 129, 255, 256, 257, 300]):
+        for x in ('A', 'Y') if not ctx.quick else (rng.choice('AY'),):
+            y = 'C' if x == 'A' else 'W'
+            long_cases.append(([x * m, x * (m - 1), x * (m + 1), x * (m - 1) + y, x * m, y + x * (m - 1), x * (m - 2) + y + y], 2))
+    for t in range(2 if ctx.quick else 24):
+        Ln = rng.choice([63, 64, 65, 128, 129, 256, 257, 300] if not ctx.quick else [64, 65, 129, 257])
+        s1 = ''.join(rng.choice(gens.AA) for _ in range(Ln))
+        j, j2 = rng.randrange(Ln), rng.randrange(Ln)
+        seqs = [s1, s1[:j] + s1[j + 1:], s1[:j] + rng.choice(gens.AA) + s1[j:], s1[:j2] + rng.choice(gens.AA) + s1[j2 + 1:], s1,
+                s1[:j] + s1[j + 1:j2] + rng.choice(gens.AA) + s1[j2:] if j < j2 else s1[::-1]]
+        rng.shuffle(seqs)
+        long_cases.append((seqs, rng.choice([1, 2])))
+    for seqs, k in long_cases:
+        exp = spec_triplets(seqs, k)
+        calls = [('kdtree', 'list', {}), ('kdtree', 'ndarray_U', dict(compression=20)), ('kdtree', 'list', dict(compression=3, n_cpu=2)),
+                 ('nearest_neighbor', 'list', {}), ('hash_based', 'list', {})]
+        for eng, cont, kw in calls:
+            kk = 1 if eng == 'hash_based' else k
+            e = exp if kk == k else [t for t in exp if t[2] <= kk]
+            ctx.count('long_vs_recurrence:' + eng)
+            judge(ctx, nn, eng, seqs, kk, cont, kw, e)
+
+    # (i) call histories on one object
+    for t in range(9 if ctx.quick else 90):
+        # the first three on one str ndarray (the object kdtree / hash_based use as it is), then every container kind
+        cont = 'ndarray_U' if t < 3 else rng.choice(('list', 'ndarray_obj', 'series_default', 'series_permuted') + CONTAINERS)
+        seqs = short_rep(rng.randint(5, 10), 6) + ['CAF', 'CAF', 'CAAF']
+        rng.shuffle(seqs)
+        steps = []
+        kind = t % 3
+        label = 'engines_in_turn'
+        if kind == 0:
+            # every engine in turn on the same object, radii descending then ascending
+            for eng, k in (('hash_based', 2), ('hash_based', 1), ('kdtree', 3), ('kdtree', 1), ('nearest_neighbor', 2),
+                           ('kdtree', 2), ('hash_based', 2), ('nearest_neighbor', 1)):
+                steps.append(dict(engine=eng, k=k, kw=dict(n_cpu=2) if eng == 'kdtree' and k == 1 else {}))
+        elif kind == 1 and cont != 'tuple':
+            label = 'edited_in_place'
+            # the object is edited in place between the calls (same length / same identity, other content)
+            maxlen = max(map(len, seqs))
+            for r in range(4):
+                eng = ENGINES[(t + r) % 3]
+                p = rng.randrange(len(seqs))
+                new = gens.mutate(rng, rng.choice(seqs), gens.AA, 1)[:maxlen]
+                edit = ['swap', p, rng.randrange(len(seqs))] if r == 2 else ['set', p, new]
+                if cont in ('list', 'list_npstr') and r == 3:
+                    edit = ['append', new]
+                steps.append(dict(engine=eng, k=1 + r % 2, kw={}, edit=edit if r else None))
+                steps.append(dict(engine=ENGINES[(t + r + 1) % 3], k=1 + r % 2, kw={}))
+        else:
+            # calls in other modes / with other options in between (module-level state of the kdtree workers)
+            label = 'other_modes_in_between'
+            other = short_rep(8, 8) + ['CAAF', 'CAFA', 'ACAF']
+            for eng, kw in (('kdtree', dict(custom_distance='hamming', max_returns=1)), ('kdtree', dict(max_returns=1, n_cpu=2)),
+                            ('hash_based', dict(custom_distance='hamming')), ('nearest_neighbor', dict(custom_distance='hamming')),
+                            ('kdtree', dict(custom_distance='hamming', n_cpu=2, compression=4))):
+                steps.append(dict(engine=eng, k=rng.choice([1, 2] if eng == 'hash_based' else [1, 2, 3]), kw=kw, other=other, check=False))
+                e2 = rng.choice(ENGINES)
+                steps.append(dict(engine=e2, k=rng.choice([1, 2]), kw=dict(n_cpu=rng.choice([1, 2])) if e2 == 'kdtree' else {}))
+        ctx.count('history:' + label)
+        run_history(ctx, nn, dict(container=cont, seqs=seqs, steps=steps))
 
     # three-way agreement on the implementation side
     for t in range(15 if ctx.quick else 300):
@@ -121,12 +537,84 @@ def run(ctx):
                         'inputs over the 20 amino-acid letters (documented domain of hash_based / kdtree)']
 
 
+def judge(ctx, nn, eng, seqs, k, container, kw, expected):
+    """One implementation call against an expected triplet list computed from the specification."""
+    opts = dict(kw)
+    if container != 'list':
+        opts['container'] = container
+    got = call_impl(lambda: invoke(nn, eng, build(container, seqs), k, kw))
+    ok = got[0] == 'ok'
+    if ok:
+        try:
+            impl = canon_triplets(got[1])
+        except Exception as e:
+            ok, impl = False, repr(e)
+    ctx.case(nontrivial_key=('spec', eng, k, tuple(seqs), str(sorted(opts.items()))) if expected else None)
+    if ok and impl == expected:
+        return True
+    detail = got if not ok else diff_triplets(impl, expected)
+    short = [s if len(s) <= 40 else '%s..(%d residues)' % (s[:12], len(s)) for s in seqs]
+    ctx.violation('property', '%s k=%d %s: implementation differs from the exact neighbour set (textbook Levenshtein recurrence) on %s: %s' %
+                  (eng, k, opts or '', short, jsonable(detail)),
+                  dict(case='%s k=%d spec' % (eng, k), seqs=list(seqs), detail=jsonable(detail), request=['api_brute_self_lev', [k, list(seqs)]],
+                       expected_by='recurrence'),
+                  site=site_of(eng, opts))
+    return False
+
+
+def differential(ctx, nn, seqs, k, calls):
+    """The same collection through several engines / containers / speed options: all answers equal (k None: max_edits omitted)."""
+    style = 'default' if k is None else 'kw'
+
+    def answer(call, ss):
+        eng, cont, kw = call
+        got = call_impl(lambda: invoke(nn, eng, build(cont, ss), k, kw, style))
+        return ('ok', tuple(canon_triplets(got[1]))) if got[0] == 'ok' else ('exc', got[1])
+    res = [answer(c, seqs) for c in calls]
+    ctx.case(nontrivial_key=('engines', k, len(seqs), tuple(seqs[:50])) if res[0][0] == 'ok' and res[0][1] else None)
+    if len(set(res)) == 1 and res[0][0] == 'ok':
+        return True
+    bad = next((n for n, r in enumerate(res) if r[0] != 'ok'), None)
+    small = seqs
+    if bad is not None:
+        what, ref = res[bad], bad
+    else:
+        bad, ref = next(n for n, r in enumerate(res) if r != res[0]), 0
+        try:
+            # shrink the collection while the two calls still disagree
+            small = gens.shrink_list(seqs, lambda ss: answer(calls[ref], ss) != answer(calls[bad], ss), max_steps=150)
+        except Exception:
+            small = seqs
+        x, y = answer(calls[bad], small), answer(calls[ref], small)
+        what = diff_triplets(list(x[1]), list(y[1])) if x[0] == y[0] == 'ok' else (x, y)
+    ctx.violation('property', 'the engines disagree: %s %s against %s %s, max_edits=%s, on %s%s: %s' %
+                  (calls[bad][0], calls[bad][1:], calls[ref][0], calls[ref][1:], 'omitted' if k is None else k,
+                   small[:40], '' if len(small) <= 40 else ' ... (%d sequences)' % len(small), jsonable(what)),
+                  dict(differential=[list(c) for c in ((calls[ref], calls[bad]) if ref != bad else (calls[bad],))], seqs=small, k=k),
+                  site='nn.engines')
+    return False
+
+
 def replay(ctx, obj):
     import pyrepseq.nn as nn
     r = obj['replay']
+    if r.get('history'):
+        run_history(ctx, nn, r['history'])
+        return
+    if r.get('differential'):
+        differential(ctx, nn, r['seqs'], r['k'], [tuple(c) for c in r['differential']])
+        return
+    if 'request' not in r:
+        seqs, k = r['seqs'], r.get('k', 1)
+        differential(ctx, nn, seqs, k, [(e, 'list', {}) for e in ENGINES])
+        return
     seqs, k = r['seqs'], r['request'][1][0]
     site = obj.get('site') or 'nn.kdtree'
-    eng = site.split('.')[1].split('{')[0]
-    kw = {a: int(b) for a, b in (x.split('=') for x in site.split('{')[1].rstrip('}').split(','))} if '{' in site else {}
-    fn = getattr(nn, eng, nn.kdtree)
-    run_cases(ctx, [Case('replay', lambda: fn(list(seqs), max_edits=k, **kw), ('api_brute_self_lev', [k, seqs]), seqs=seqs, site=obj.get('site'))])
+    eng, container, call, kw = parse_site(site)
+    if not hasattr(nn, eng):
+        eng = 'kdtree'
+    if r.get('expected_by') == 'recurrence':
+        judge(ctx, nn, eng, seqs, k, container, kw, spec_triplets(seqs, k))
+        return
+    run_cases(ctx, [Case('replay', lambda: invoke(nn, eng, build(container, seqs), k, kw, call), ('api_brute_self_lev', [k, seqs]),
+                         seqs=seqs, site=obj.get('site'))])
